@@ -336,6 +336,9 @@ def run(ctx, spec):
     for i in range(40):
         N = int(rng.integers(2, 30))
         h, p, w, _ = gen_profile(rng, N, kind=int(rng.choice([0, 1, 3])))
+        if i % 2:      # tied altitudes and small-integer strengths: ties inside the cost scan
+            h = np.sort(np.round(h / h.max() * 6) * 1500.0)
+            p = np.round(p / p.max() * 9) + 1
         L = int(rng.integers(1, N))
         splits = np.sort(rng.choice(np.arange(0, N - 1), size=L - 1, replace=False)).astype(np.int64)
         groups = pc._convert_splits_to_groups(splits, N)
